@@ -1,5 +1,6 @@
 pub mod c01;
 pub mod c02;
+pub mod c09;
 pub mod c10;
 pub mod c11;
 pub mod c12;
@@ -13,6 +14,7 @@ pub fn run(p: &Params) -> Report {
     match p.property.as_str() {
         "C01" => c01::run(p),
         "C02" => c02::run(p),
+        "C09" => c09::run(p),
         "C10" => c10::run(p),
         "C11" => c11::run(p),
         "C12" => c12::run(p),
